@@ -9,7 +9,6 @@ Require Import Zrs.proofs.C13_Canonical Zrs.proofs.C13_CanonCode Zrs.proofs.C13_
 Open Scope Z_scope.
 
 (** the compressor's code as a function of the symbol *)
-Definition code_fn (codes : list (Z * Z)) (s : Z) : hcode := (fst (nth (Z.to_nat s) codes (0, 0)), Z.to_nat (snd (nth (Z.to_nat s) codes (0, 0)))).
 
 Lemma hstream_ext c1 c2 data : (forall s, In s data -> c1 s = c2 s) -> hstream c1 data = hstream c2 data.
 Proof. intros H. unfold hstream. f_equal. apply map_ext_in. intros s Hs. apply H. apply in_rev. exact Hs. Qed.
